@@ -55,4 +55,44 @@ Proof.
   exact Hs.
 Qed.
 
+(* small ranges, nestable: all n < k *)
+Definition forall_below (k : nat) (p : N -> bool) : bool :=
+  forallb p (map N.of_nat (seq 0 k)).
+Lemma forall_below_spec k p : forall_below k p = true ->
+  forall n, n < N.of_nat k -> p n = true.
+Proof.
+  unfold forall_below. rewrite forallb_forall. intros H n Hn. apply H.
+  apply in_map_iff. exists (N.to_nat n). split; [apply N2Nat.id|].
+  apply in_seq. lia.
+Qed.
+
+(* lists of booleans as numbers, least significant first *)
+Fixpoint bools_of (k : nat) (n : N) : list bool :=
+  match k with O => [] | S k' => N.odd n :: bools_of k' (N.div2 n) end.
+Fixpoint val_of (l : list bool) : N :=
+  match l with
+  | [] => 0
+  | b :: r => if b then N.succ_double (val_of r) else N.double (val_of r)
+  end.
+Lemma bools_of_val l : bools_of (length l) (val_of l) = l.
+Proof.
+  induction l as [|b l IH]; [reflexivity|]. cbn [length bools_of val_of].
+  destruct b.
+  - rewrite N.div2_succ_double, IH. f_equal. destruct (val_of l); reflexivity.
+  - rewrite N.div2_double, IH. f_equal. destruct (val_of l); reflexivity.
+Qed.
+Lemma val_of_lt l : val_of l < 2 ^ N.of_nat (length l).
+Proof.
+  induction l as [|b l IH]; [cbn; lia|]. cbn [length val_of].
+  rewrite Nat2N.inj_succ, N.pow_succ_r'. destruct b.
+  - rewrite N.succ_double_spec. lia.
+  - rewrite N.double_spec. lia.
+Qed.
+Lemma sweep_bools k p q : (forall n, q n = p (bools_of k n)) ->
+  forall_bits k q 0 = true -> forall l, length l = k -> p l = true.
+Proof.
+  intros Hq H l Hl. pose proof (sweep_k k _ H (val_of l)) as Hs.
+  rewrite Hq in Hs. subst k. rewrite bools_of_val in Hs. apply Hs. apply val_of_lt.
+Qed.
+
 Global Opaque forall_bits.
